@@ -1,8 +1,14 @@
 package c24
 
 import (
+	"context"
 	"encoding/binary"
+	"encoding/json"
 	"fmt"
+	"os"
+	"os/exec"
+	"path/filepath"
+	"time"
 
 	"github.com/ontio/ontology/common"
 	"github.com/ontio/ontology/common/config"
@@ -38,7 +44,15 @@ func Run(c *hx.Ctx) {
 	for _, in := range w.probes() {
 		run(c, in)
 	}
-	for _, in := range w.allocProbes() {
+	// Hostile counts and lengths first in a child process (a count-sized allocation or an unbounded
+	// loop kills the process with a fatal error that recover cannot catch); only if the child
+	// survives are they measured in-process.
+	hostile := append(w.allocProbes(), w.frameAllocProbes()...)
+	if crashed := w.inChild(hostile); crashed {
+		c.Note("a hostile-count probe killed the child process: generation stopped after recording it")
+		return
+	}
+	for _, in := range hostile {
 		run(c, in)
 	}
 
@@ -95,9 +109,6 @@ func Run(c *hx.Ctx) {
 		in := w.genFrame(i)
 		c.Count("gen:frame:" + in.Label)
 		w.limit(&in, bud)
-		run(c, in)
-	}
-	for _, in := range w.frameAllocProbes() {
 		run(c, in)
 	}
 	for _, in := range w.frameProbes() {
@@ -304,4 +315,60 @@ func (w *world) frameProbes() []input {
 	add(frame(magic, "ping\x00\x00\x00\x00\x00\x00\x00z", le64(5)), "cmd-with-late-byte")
 	add(frame(magic, "exactly12byt", []byte{1, 2, 3}), "cmd-12-bytes")
 	return ins
+}
+
+var childSeq int
+
+// childRun executes inputs in a fresh harness process (replay mode) under a 4 GiB address-space
+// limit and a time limit; ok=false when the process died or overran.
+func (w *world) childRun(ins []input) (ok bool, detail string) {
+	c := w.c
+	childSeq++
+	dir := filepath.Join(c.OutDir, fmt.Sprintf("child-%d", childSeq))
+	_ = os.MkdirAll(dir, 0o755)
+	defer os.RemoveAll(dir)
+	rf := filepath.Join(dir, "replay.json")
+	b, _ := json.Marshal(map[string]interface{}{"input": input{Kind: "batch", Batch: ins}})
+	if err := os.WriteFile(rf, b, 0o644); err != nil {
+		return true, ""
+	}
+	exe, err := os.Executable()
+	if err != nil {
+		return true, ""
+	}
+	ctx, cancel := context.WithTimeout(context.Background(), 60*time.Second)
+	defer cancel()
+	cmd := exec.CommandContext(ctx, "sh", "-c", `ulimit -v 4194304; exec "$0" "$@"`, exe, "run", "-repo", c.Repo, "-id", "C24",
+		"-seed", fmt.Sprint(c.Seed), "-tier", c.Tier, "-out", dir, "-replay", rf)
+	out, err := cmd.CombinedOutput()
+	if err == nil {
+		// a failure the child recorded (panic, allocation) will be found again in-process
+		return true, ""
+	}
+	d := string(out)
+	if len(d) > 600 {
+		d = d[:600]
+	}
+	return false, fmt.Sprintf("%v: %s", err, d)
+}
+
+// inChild runs the batch in one child; if it dies, each input separately to name the culprits.
+func (w *world) inChild(ins []input) (crashed bool) {
+	c := w.c
+	if ok, _ := w.childRun(ins); ok {
+		c.Count("child-process-batches-survived")
+		return false
+	}
+	for _, in := range ins {
+		if ok, detail := w.childRun([]input{in}); !ok {
+			crashed = true
+			kind := "frame"
+			if in.Kind == "payload" {
+				kind = cmdLabel(string(hx.UnHex(in.Cmd)))
+			}
+			c.Eval()
+			c.Fail("crash:"+kind, "decoding killed the process (fatal error / out of memory / time limit): not recoverable in Link.Rx", in, detail, "message or error, allocation bounded by the bytes present")
+		}
+	}
+	return crashed
 }
